@@ -367,10 +367,12 @@ class PAPRConstraint(BaseConstraint):
 
             if torch.any(excess_mask):
                 # Normalize excessive values by their magnitude to preserve phase (complex) or sign (real)
-                normalized = result[excess_mask] / (magnitudes[excess_mask] + 1e-8)
+                # (computed out of place: an in-place write into `result` after torch.abs(result)
+                # has been recorded would invalidate the tensor autograd saved for abs' backward)
+                normalized = result / (magnitudes + 1e-8)
 
                 # Apply clipping while preserving signal phase/sign
-                result[excess_mask] = normalized * max_amplitude
+                result = torch.where(excess_mask, normalized * max_amplitude, result)
 
                 # For later iterations, apply more aggressive clipping
                 if i > max_iterations // 2:
@@ -380,8 +382,8 @@ class PAPRConstraint(BaseConstraint):
                     stricter_mask = magnitudes > stricter_max_amp
                     if torch.any(stricter_mask):
                         # Division by magnitude preserves phase (complex) or sign (real)
-                        normalized = result[stricter_mask] / (magnitudes[stricter_mask] + 1e-8)
-                        result[stricter_mask] = normalized * stricter_max_amp
+                        normalized = result / (magnitudes + 1e-8)
+                        result = torch.where(stricter_mask, normalized * stricter_max_amp, result)
 
         # Final check and hard clipping as a safety measure
         avg_power = torch.mean(torch.abs(result) ** 2)
@@ -392,7 +394,7 @@ class PAPRConstraint(BaseConstraint):
         if torch.any(final_excess_mask):
             # Final hard clipping to ensure we're under the limit
             # This preserves phase for complex signals and sign for real signals
-            normalized = result[final_excess_mask] / (magnitudes[final_excess_mask] + 1e-8)
-            result[final_excess_mask] = normalized * final_max_amplitude
+            normalized = result / (magnitudes + 1e-8)
+            result = torch.where(final_excess_mask, normalized * final_max_amplitude, result)
 
         return result
